@@ -436,7 +436,7 @@ func (e *Engine) Run(t *tape.Tape, keep bool) *sim.Result {
 	// compiled module), with a tape-drawn override so the shrinker can move to
 	// the simplest driver.
 	nDrivers := len(keyKinds) * len(valKinds)
-	id := int(tape.Mix(e.seed^0x13, e.run/256) % uint64(nDrivers))
+	id := int(tape.Mix(e.seed^0x13, (e.run/(16*64))*16+e.run%16) % uint64(nDrivers))
 	d, err := e.driver(id)
 	if err != nil {
 		res.Trouble = err.Error()
